@@ -213,6 +213,9 @@ func (e *Engine) operand(fr *Frame, st *State, v ssa.Value) *Val {
 // ---------------------------------------------------------------- heap access
 
 func factKey(a *Addr) string {
+	if a.Kind == "elemfield" {
+		return fmt.Sprintf("%s@%s@%s@f%d", a.Key, a.Base, a.Idx, a.Field)
+	}
 	if a.Kind == "elem" {
 		return a.Key + "@" + a.Base + "@" + a.Idx
 	}
@@ -285,6 +288,8 @@ func (e *Engine) loadIn(st *State, m map[string]string, p *Val, elem types.Type)
 		res.T = sel(e.heapGet(st, m, a.Key), a.Base)
 	case "elem":
 		res.T = sel(sel(e.heapGet(st, m, a.Key), a.Base), a.Idx)
+	case "elemfield":
+		res.T = fmt.Sprintf("(%s_f%d %s)", a.Struct, a.Field, sel(sel(e.heapGet(st, m, a.Key), a.Base), a.Idx))
 	case "byteat":
 		res.T = "(sat " + a.Base + " " + a.Idx + ")"
 	default:
@@ -393,6 +398,19 @@ func (e *Engine) store(st *State, p *Val, elem types.Type, v *Val) error {
 	case "elem":
 		h := e.heapGet(st, st.heap, a.Key)
 		e.heapSet(st, a.Key, sto(h, a.Base, sto(sel(h, a.Base), a.Idx, v.T)))
+	case "elemfield":
+		h := e.heapGet(st, st.heap, a.Key)
+		cur := sel(sel(h, a.Base), a.Idx)
+		info := e.reg.structs[a.Struct]
+		var fs []string
+		for i := range info.Fields {
+			if i == a.Field {
+				fs = append(fs, v.T)
+			} else {
+				fs = append(fs, fmt.Sprintf("(%s_f%d %s)", a.Struct, i, cur))
+			}
+		}
+		e.heapSet(st, a.Key, sto(h, a.Base, sto(sel(h, a.Base), a.Idx, "(mk_"+a.Struct+" "+strings.Join(fs, " ")+")")))
 	default:
 		return fmt.Errorf("store through unsupported address kind %s (outside subset: []byte element store)", a.Kind)
 	}
@@ -404,6 +422,11 @@ func (e *Engine) store(st *State, p *Val, elem types.Type, v *Val) error {
 	// a store through a symbolic base may alias other facts of the same key: drop facts with a different base
 	for k := range st.facts {
 		if strings.HasPrefix(k, a.Key+"@") && k != factKey(a) && !distinctRefs(k[len(a.Key)+1:], a.Base) {
+			// same object: distinct literal indices cannot alias
+			rest := k[len(a.Key)+1:]
+			if a.Kind == "elem" && strings.HasPrefix(rest, a.Base+"@#x") && strings.HasPrefix(a.Idx, "#x") {
+				continue
+			}
 			delete(st.facts, k)
 		}
 	}
@@ -562,15 +585,46 @@ func (e *Engine) binop(fr *Frame, st *State, in *ssa.BinOp) (*Val, error) {
 	return res, nil
 }
 
+// strCat builds concatenations in a canonical right-nested form, so that (a++b)++c and a++(b++c) are the same term.
 func (e *Engine) strCat(st *State, a, b string) string {
-	if a == "empty_str" {
-		return b
+	ps := append(scatPieces(a), scatPieces(b)...)
+	var qs []string
+	for _, p := range ps {
+		if p != "empty_str" {
+			qs = append(qs, p)
+		}
 	}
-	if b == "empty_str" {
-		return a
+	if len(qs) == 0 {
+		return "empty_str"
 	}
-	t := "(scat " + a + " " + b + ")"
+	t := qs[len(qs)-1]
+	for i := len(qs) - 2; i >= 0; i-- {
+		t = "(scat " + qs[i] + " " + t + ")"
+	}
 	return t
+}
+
+// scatPieces flattens a (scat x y) term into its pieces.
+func scatPieces(t string) []string {
+	if !strings.HasPrefix(t, "(scat ") {
+		return []string{t}
+	}
+	in := t[6 : len(t)-1]
+	// split into two top-level s-expressions
+	d := 0
+	for i := 0; i < len(in); i++ {
+		switch in[i] {
+		case '(':
+			d++
+		case ')':
+			d--
+		case ' ':
+			if d == 0 {
+				return append(scatPieces(in[:i]), scatPieces(strings.TrimSpace(in[i+1:]))...)
+			}
+		}
+	}
+	return []string{t}
 }
 
 // equalVals: Go == on two values of the same sort.
@@ -755,6 +809,13 @@ func (e *Engine) simpleInstr(fr *Frame, st *State, instr ssa.Instruction) (*Val,
 		st0 := in.X.Type().Underlying().(*types.Pointer).Elem()
 		ss := e.reg.structSort(st0)
 		ft := st0.Underlying().(*types.Struct).Field(in.Field).Type()
+		if x.Addr != nil && x.Addr.Kind == "elem" {
+			// field of a struct that is an element of a slice/array
+			if _, nested := ft.Underlying().(*types.Struct); nested {
+				return nil, fmt.Errorf("address of a nested struct inside a slice element (outside subset)")
+			}
+			return &Val{T: "1", S: sInt, Typ: in.Type(), Addr: &Addr{Kind: "elemfield", Key: x.Addr.Key, Base: x.Addr.Base, Idx: x.Addr.Idx, Struct: ss, Field: in.Field}}, nil
+		}
 		r := &Val{T: fmt.Sprintf("(fieldref %s %d)", x.T, in.Field), S: sInt, Typ: in.Type()}
 		switch ft.Underlying().(type) {
 		case *types.Struct:
